@@ -327,6 +327,16 @@ let judge_line (line : string) =
        | [a; b; c; ";"; "O"; ok] ->
            report line ((if a = b then [] else [z_of_int 86]) @ (if a = c then [] else [z_of_int 87]) @ (if ok = "1" then [] else [z_of_int 88]))
        | _ -> report line [z_of_int 99])
+  | ["xm"; p; emax; emin; traps; rnd; x; cp; n], [d; cnd; er] ->
+      bump opcount "ExpModel"; if cnd <> "0" then Hashtbl.replace nontrivial (String.concat " " lhs) ();
+      let c = mkCtx (z_of_dec_string p) (z_of_dec_string emax) (z_of_dec_string emin)
+                (cond_of_Z (z_of_dec_string traps)) (rounder_of_token rnd) in
+      let craw = z_of_dec_string cnd in
+      let o = mkObs (dec_req d) (cond_of_Z craw) craw (err_of_token er) Z0 None None true in
+      let xd = dec_req x in
+      let k = mkCase ORound c xd xd Z0 ANone xd in
+      report line (corr_exp (z_of_dec_string cp) (z_of_dec_string n) c xd o
+                   @ (if is_finite o.o_dec && err_eqb_none o then oracle_c07 k o else []))
   | ["gs"; _; _], [v] -> bump opcount "GlobalsSnapshot"; report line (if v = "1" then [] else [z_of_int 89])
   | ["gn"; b], [g; o] ->
       bump opcount "NumDigitsGlobals"; Hashtbl.replace nontrivial b ();
